@@ -128,3 +128,29 @@ End WithTol.
 (* well-formed tolerances: non-negative numerators, positive denominators; exact mode implies... nothing more *)
 Definition tol_wf (T : tol) : Prop := 0 <= tq_num T /\ 0 < tq_den T /\ 0 <= tb_num T /\ 0 < tb_den T.
 Definition tol_wfb (T : tol) : bool := (0 <=? tq_num T) && (0 <? tq_den T) && (0 <=? tb_num T) && (0 <? tb_den T).
+
+(* ---- decidable forms of the hypotheses of the tolerance-generic theorems ---- *)
+Definition far_tb (T : tol) (D : Z) (p q : v3) : bool :=
+  (tq_num T * D <? tq_den T * boxdist D p q) && (tb_num T * D <? tb_den T * boxdist D p q).
+
+Definition separated_tb (T : tol) (D : Z) (G : list symop) (off x : v3) : bool :=
+  let ims := map (fun g => img D g off x) G in
+  forallb (fun p => forallb (fun q => v3_eqb p q || far_tb T D p q) ims) ims.
+
+Definition near_special_tb (T : tol) (D : Z) (G : list symop) (off x x0 : v3) : bool :=
+  let ims := map (fun g => (img D g off x0, img D g off x)) G in
+  forallb (fun a => forallb (fun b =>
+     if v3_eqb (fst a) (fst b) then boxdist D (snd a) (snd b) * tq_den T <=? tq_num T * D
+     else far_tb T D (snd a) (snd b)) ims) ims.
+
+Definition snap_hyps_tb (T : tol) (D : Z) (G : list symop) (off x x0 : v3) : bool :=
+  let S := stab D G off x0 in
+  let n := Z.of_nat (List.length S) in
+  let xs := snapped_site D G off x x0 in
+  if near_special_tb T D G off x x0 then
+    forallb (fun h => small_vb D (vsub (mvec (fst h) (vsub x x0)) (vsub x x0))) S &&
+    (1 <? List.length S)%nat &&
+    negb (v3_eqb xs (vscale n x)) &&
+    v3_eqb (zero_small_t T (D * n) xs) xs &&
+    separated_tb T (D * n) G (vscale n off) xs
+  else false.
